@@ -349,6 +349,43 @@ struct NetCase {
     judge_request: bool,
     c2s: Option<Enc>,
     chop: usize,
+    /// the response is not produced by the handler but by the server's middleware stack:
+    /// 1 = a user layer fails with a Status (PERMISSION_DENIED), 2 = Server::timeout fires while a
+    /// user layer is still holding the request (CANCELLED)
+    middleware: u8,
+}
+
+/// A user layer that refuses (mode 1) or delays by an hour (mode 2) every request.
+#[derive(Clone)]
+struct Obstacle<S> {
+    inner: S,
+    mode: u8,
+}
+
+impl<S, B> tower_service::Service<http::Request<B>> for Obstacle<S>
+where
+    S: tower_service::Service<http::Request<B>> + Clone + Send + 'static,
+    S::Future: Send + 'static,
+    S::Error: Into<Box<dyn std::error::Error + Send + Sync>> + 'static,
+    B: Send + 'static,
+{
+    type Response = S::Response;
+    type Error = Box<dyn std::error::Error + Send + Sync>;
+    type Future = std::pin::Pin<Box<dyn std::future::Future<Output = Result<S::Response, Self::Error>> + Send>>;
+    fn poll_ready(&mut self, cx: &mut std::task::Context<'_>) -> std::task::Poll<Result<(), Self::Error>> {
+        self.inner.poll_ready(cx).map_err(Into::into)
+    }
+    fn call(&mut self, req: http::Request<B>) -> Self::Future {
+        let mode = self.mode;
+        let mut inner = self.inner.clone();
+        Box::pin(async move {
+            if mode == 1 {
+                return Err(Box::new(Status::permission_denied("refused by a layer")) as Box<dyn std::error::Error + Send + Sync>);
+            }
+            tokio::time::sleep(std::time::Duration::from_secs(3600)).await;
+            inner.call(req).await.map_err(Into::into)
+        })
+    }
 }
 
 #[derive(Default, Debug, Clone)]
@@ -428,8 +465,18 @@ fn net_run(c: &NetCase, ch: &Chooser) -> NetSeen {
             vnet::settle().await;
         } else {
             let (server, _log) = new_server(c.call.script.clone(), &ch, true);
+            let mode = c.middleware;
             tokio::spawn(async move {
-                let _ = tonic::transport::Server::builder().add_service(server).serve_with_incoming(vnet::incoming(rx)).await;
+                if mode == 0 {
+                    let _ = tonic::transport::Server::builder().add_service(server).serve_with_incoming(vnet::incoming(rx)).await;
+                } else {
+                    let _ = tonic::transport::Server::builder()
+                        .timeout(std::time::Duration::from_millis(50))
+                        .layer(tower::layer::layer_fn(move |inner| Obstacle { inner, mode }))
+                        .add_service(server)
+                        .serve_with_incoming(vnet::incoming(rx))
+                        .await;
+                }
             });
             use tower_service::Service;
             let mut conn = vnet::connector(st);
@@ -539,6 +586,13 @@ fn net_body(c: &NetCase, ch: &Chooser) -> Outcome {
         } else if in_headers != 0 || in_trailers != 1 {
             o.violate("net-response-grpc-status", format!("grpc-status: {in_headers} in headers, {in_trailers} in trailers"));
         }
+        if c.middleware != 0 {
+            let want_code: &[u8] = if c.middleware == 1 { b"7" } else { b"1" };
+            if s.headers.get("grpc-status").map(|v| v.as_bytes()) != Some(want_code) || !s.data.is_empty() {
+                o.violate("net-middleware-response", format!("expected a body-less response with grpc-status {} from the middleware stack, got [{}] data {}", String::from_utf8_lossy(want_code), fmt_headers(&s.headers), hex(&s.data)));
+            }
+            return o;
+        }
         let (want, _) = expected_response(&c.call);
         judge_frames(&mut o, "net-response", &s.data, &want, None, Some(0));
     }
@@ -608,16 +662,22 @@ pub fn property(tier: Tier) -> Property {
         }
         let chops: Vec<usize> = if tier == Tier::Thorough { vec![0, 2, 3] } else { vec![[0, 2, 3][i % 3]] };
         for chop in chops {
-            ncases.push(NetCase { call: call.clone(), judge_request: false, c2s: None, chop });
-            ncases.push(NetCase { call: call.clone(), judge_request: true, c2s: [None, Some(Enc::Gzip), Some(Enc::Zstd)][i % 3], chop });
+            ncases.push(NetCase { call: call.clone(), judge_request: false, c2s: None, chop, middleware: 0 });
+            ncases.push(NetCase { call: call.clone(), judge_request: true, c2s: [None, Some(Enc::Gzip), Some(Enc::Zstd)][i % 3], chop, middleware: 0 });
+        }
+    }
+    // (c) responses produced by the middleware stack, for every call shape
+    for call in call_cases(tier).into_iter().filter(|c| !c.free_cuts && !c.repeat && c.script.end.is_none() && c.enc.is_none()).step_by(17) {
+        for middleware in [1u8, 2] {
+            ncases.push(NetCase { call: call.clone(), judge_request: false, c2s: None, chop: 0, middleware });
         }
     }
     let c = Section::new(
         "transport-wire",
         Config { max_bound: 1, hang_secs: 60, ..Default::default() },
-        "cases: C02 call cases (quick: every third) x pipe fragmentation pattern, in virtual time over in-memory pipes, against NON-tonic peers: (a) the generated client over the real Channel/hyper/h2 stack talks to a bare hyper HTTP/2 server which records what really arrives: POST, HTTP/2, path, content-type application/grpc, te: trailers, no trailers, body = the request messages framed (compressed as announced); (b) a bare hyper HTTP/2 client sends a hand-built gRPC request to the real tonic Server and records status 200, content-type, exactly one grpc-status (in headers iff nothing else follows, else in the HTTP/2 trailers) and the framed response messages. Non-trivial = fragmenting pattern, compression or an error status.",
+        "cases: C02 call cases (quick: every third) x pipe fragmentation pattern, in virtual time over in-memory pipes, against NON-tonic peers: (a) the generated client over the real Channel/hyper/h2 stack talks to a bare hyper HTTP/2 server which records what really arrives: POST, HTTP/2, path, content-type application/grpc, te: trailers, no trailers, body = the request messages framed (compressed as announced); (b) a bare hyper HTTP/2 client sends a hand-built gRPC request to the real tonic Server and records status 200, content-type, exactly one grpc-status (in headers iff nothing else follows, else in the HTTP/2 trailers) and the framed response messages; (c) as (b), but the response comes from the server's middleware stack instead of the handler — a user layer failing with a Status, Server::timeout firing while a user layer holds the request — and must be the same kind of HTTP message (200, application/grpc, exactly one grpc-status, in the headers). Non-trivial = fragmenting pattern, compression or an error status.",
         ncases,
-        |c: &NetCase| format!("judge_request={} c2s={} chop={} {}", c.judge_request, enc_name(c.c2s), c.chop, describe(&c.call)),
+        |c: &NetCase| format!("judge_request={} c2s={} chop={} middleware={} {}", c.judge_request, enc_name(c.c2s), c.chop, c.middleware, describe(&c.call)),
         net_body,
     )
     .mins(300, 10, 100);
